@@ -1026,9 +1026,25 @@ class CE:
                 raise Unsupported("tobytes of values outside int8")
             return bytes(x & 0xFF for x in m.flat())
         if name == "reshape":
-            shape = args[0] if len(args) == 1 and isinstance(args[0], tuple) else tuple(args)
+            shape = args[0] if len(args) == 1 and isinstance(args[0], (tuple, list)) else tuple(args)
+            shape = tuple(shape)
             flat = m.flat()
-            if len(shape) == 1 or isinstance(shape, int):
+            if not all(isinstance(x, int) and not isinstance(x, bool) for x in shape):
+                raise Unsupported(f"reshape to {shape!r}")
+            if shape.count(-1) == 1:
+                rest = 1
+                for x in shape:
+                    if x != -1:
+                        rest *= x
+                if rest == 0 or len(flat) % rest:
+                    raise CERaise("ValueError", f"cannot reshape array of size {len(flat)} into shape {shape}")
+                shape = tuple(len(flat) // rest if x == -1 else x for x in shape)
+            total = 1
+            for x in shape:
+                total *= x
+            if total != len(flat) or any(x < 0 for x in shape):
+                raise CERaise("ValueError", f"cannot reshape array of size {len(flat)} into shape {shape}")
+            if len(shape) == 1:
                 return Mat(flat, 1)
             if len(shape) != 2:
                 raise Unsupported(f"reshape to {len(shape)} dimensions")
